@@ -1,6 +1,6 @@
 # Human-written metadata per check for MANIFEST.json.
 ENGINES = [
-    {"name": "meshx", "path": "/verif/kit (world.go, node.go, conn.go)", "serves_properties": ["C01", "C06", "C07"],
+    {"name": "meshx", "path": "/verif/kit (world.go, node.go, conn.go)", "serves_properties": ["C01", "C06", "C07", "C08"],
      "kind_free_text": "event-level explorer over a world of real routers (real state/peering/switch/router modules per node) wired by virtual links or adversary-owned connections; one event = one synchronous call into the real handlers, virtual time via testing/synctest"},
     {"name": "seqx", "path": "/verif/kit (bfs.go) + /verif/checks/*", "serves_properties": ["C01", "C02", "C03", "C11", "C12", "C17", "C19"],
      "kind_free_text": "sequential bounded-exhaustive / explicit-state explorer over the real objects (fresh object + replay per path, canonical state hash)"},
@@ -58,6 +58,13 @@ META = {
         "design_ref": "DESIGN.md §2 C07",
         "text": "In a fresh world of six real routers (R with peers X, Y, Z, a populated routing table covering every 3-router path shape, connection verdicts and keyed sessions) each of 14 ping kinds (hello req/resp, pong req/resp, error codes 0-4 and unknown, disconnect going-down/list, announce with 0 and 1 hop) is produced by X's real sender code and delivered to R after: every single-bit flip of every authenticated header byte, the length fields and the signature/MAC plus one bit per body byte (thorough: all bits); rewriting source or destination; re-sealing the same content by Y or Z claiming X's address; four first-contact variants (right key / wrong key / key of another address / no key) x four ping types; replay of the exact frame after {nothing, a newer ping from X, a ping from Y, +31 s}. A snapshot (routing table via VerifEntries, session set-up flags and key fingerprints, peer MTU, stored public info and offline flags, connection verdicts) must be unchanged for everything that does not verify; the valid ping's effect is bounded per kind (hello: only session(X); disconnect: only routes containing X, and all of them).",
         "note": "Bare identity records (address+key, no keys/MTU/info) are normalised away: the statement's state list does not contain them and C01 governs them. Disconnect pings are addressed to the router itself because, as emitted by the real sender (unicast type to the multicast address), they are never dispatched to the disconnect handler.",
+    },
+    "C08": {
+        "engine": "meshx",
+        "technique": "exhaustive bit-flip and structural fault enumeration on real signed hop-record chains delivered to a real router, with a log of honestly produced records as oracle",
+        "design_ref": "DESIGN.md §2 C08",
+        "text": "For chain lengths 0..3 (thorough 0..5) a fresh world of real routers (two origins O and O2, relays H1..Hk, receiver R with two more peers) lets announcements of O at two times and of O2 propagate through the real forwarding code up to R's inbound link. The first announcement is then delivered after: every bit flip of the frame (quick: all header bits, one bit per byte beyond, all bits of the signature head), strip-outermost-j, strip-innermost, swap, duplicate, inner chain / appendix / body substituted from the other time or the other origin, re-attribution of every record to three other identities, impersonation of a router R already knows with the attacker's key embedded, wrapping by a non-delivering router, delivery over a different link - each as-is and re-signed by the (malicious, key-owning) delivering peer - and two-step histories where the genuine announcement is accepted first and a tampered copy with the same origin timestamp follows. Rejection = R's table unchanged and no announcement emitted; every acceptance is validated: route hops = [R, signers in order with signed delay/labels, origin], next hop = delivering peer, every record byte-identical to one logged from its signer for this (origin, timestamp, signature).",
+        "note": "A malicious delivering peer can always sign a record of its own that omits inner hops (shortcut lie) - the statement only forbids naming routers that did not sign; such cases are judged by the acceptance oracle, not expected to be rejected. Frames whose type byte is mutated into a unicast type are relayed as transit traffic (unauthenticated by design) and not counted as forwarded announcements.",
     },
     "C11": {
         "engine": "seqx",
